@@ -52,7 +52,16 @@ def _mentions(e, name):
     return False
 
 
+_CASTLIKE = set()   # names of helper functions whose body is a chain of casts of their only parameter
+
+
 def _strip_casts(e):
+    while isinstance(e, tuple) and e[0] == "call" and e[1] in _CASTLIKE and len(e[3]) == 1:
+        e = e[3][0]
+    return _strip_casts_plain(e)
+
+
+def _strip_casts_plain(e):
     while e[0] == "cast":
         e = e[2]
     return e
@@ -246,10 +255,33 @@ def cpprange(facts: CppFacts, parts=("write", "mask", "keepmask"), ub_only=False
                             f"digit hold up to {want}", m.file, m.line, "BcdView::CouldWriteValue")
 
     if "write" in parts or "enum" in parts:
+        # private one-expression helpers of EnumView (ToBits: the value's bit pattern in the enum's own width,
+        # zero-extended to the storage integer) are inlined by the folder like MaskToNBits
+        for hm in facts.by_class("EnumView"):
+            if hm.name in ("CouldWriteValue", "TryToWrite", "Write", "Read", "UncheckedRead", "UncheckedWrite", "Ok", "IsComplete") or hm.name in functions:
+                continue
+            if not re.search(r"\b" + hm.name + r"\s*\(", method("EnumView", "CouldWriteValue").body):
+                continue
+            try:
+                hexpr = X.function_from_source(hm.body, None, None)
+                def _pt(t_):
+                    t_ = re.sub(r"^(const )?", "", t_).strip()
+                    t_ = re.sub(r"^typename\s+", "", t_)
+                    if t_.endswith("BitViewType::ValueType"):
+                        return "BitViewType::ValueType"
+                    return "ValueType" if t_.endswith("ValueType") else t_
+                hparams = [(_pt(p_[0]), p_[1]) for p_ in hm.params]
+                parsed = X.parse(hexpr, type_names=TYPES)
+                functions[hm.name] = (hparams, parsed, "BitViewType::ValueType", ())
+                if len(hparams) == 1 and _strip_casts_plain(parsed) == ("name", hparams[0][1], None):
+                    _CASTLIKE.add(hm.name)
+            except X.Unsupported as u:
+                raise AnalysisError(f"EnumView::{hm.name}: {u}")
         # ---- EnumView --------------------------------------------------------------------------------------
         m, conj = split("EnumView")
         bounds = []
         roundtrips = []
+        width_conjuncts = []
         for c in conj:
             if _is_value_ok(c):
                 continue
@@ -258,6 +290,7 @@ def cpprange(facts: CppFacts, parts=("write", "mask", "keepmask"), ub_only=False
                 continue  # round trip through the storage type (a): evaluated below
             if c[0] == "bin" and c[1] == "||" and not _mentions(c[2], "value") and _bound_of(c[3], "value"):
                 bounds.append((c[2], _bound_of(c[3], "value")))
+                width_conjuncts.append(c)
                 continue
             raise AnalysisError("EnumView::CouldWriteValue: unrecognised conjunct structure")
         if len(bounds) != 1:
@@ -315,6 +348,49 @@ def cpprange(facts: CppFacts, parts=("write", "mask", "keepmask"), ub_only=False
                                     f"{'preserves' if want else 'changes'} the value (mixed-sign comparison after integer promotion?)",
                                     m.file, m.line, "EnumView::CouldWriteValue")
                             break
+
+        # "enum fields accept any in-range value": a field exactly as wide as the enum's underlying type (k == its width)
+        # holds every value of that type, negative ones included, in whatever block it sits (an int8_t enum in an 8-bit
+        # field of a 16-bit `bits`): both value conjuncts are true for every sample value
+        for ubits in (8, 16, 32, 64):
+            for usigned in (True, False):
+                U = X.T(usigned, ubits)
+                lo = -(1 << (ubits - 1)) if usigned else 0
+                hi = (1 << (ubits - 1)) - 1 if usigned else (1 << ubits) - 1
+                for w in (8, 16, 32, 64):
+                    if w < ubits:
+                        continue
+                    B = X.T(False, w)
+                    for v in sorted({lo, -1 if usigned else 0, 0, 1, hi}):
+                        res.instances += 1
+                        env = X.Env({"Parameters::kBits": X.V(X.INT, ubits), "value": X.V(U, v)},
+                                    {"ValueType": U, "BitViewType::ValueType": B, "IntT": X.LONG}, functions)
+                        key = f"{m.file}|EnumView::CouldWriteValue|fullwidth|{'i' if usigned else 'u'}{ubits}|w={w}"
+                        vals = [_fold(cj, env, f"EnumView full-width {('int' if usigned else 'uint')}{ubits}_t in uint{w}_t value {v}", res, key,
+                                      m.file, m.line, "EnumView::CouldWriteValue") for cj in roundtrips + width_conjuncts]
+                        if any(x is not None and not x.v for x in vals):
+                            res.add(key + "|rejects", f"EnumView::CouldWriteValue rejects the value {v} of an enum over {'int' if usigned else 'uint'}{ubits}_t in a "
+                                    f"{ubits}-bit field carried by a uint{w}_t block: the field is as wide as the type, every value fits "
+                                    "(the value is cast to the block's unsigned type without first reducing it to the enum's own width)",
+                                    m.file, m.line, "EnumView::CouldWriteValue")
+                            break
+
+        # what is written is what was bounded: TryToWrite / UncheckedWrite hand buffer_.(Unchecked)WriteUInt the same
+        # conversion of `value` that the width conjunct of CouldWriteValue compares with 2^k
+        cw = method("EnumView", "CouldWriteValue")
+        bm = re.search(r"\(\s*([^()]*(?:\([^()]*\))?[^()]*?)\s*<\s*\(\s*\(\s*static_cast", " ".join(cw.body.split()))
+        bounded = re.sub(r"\s+", "", bm.group(1)) if bm else None
+        for wname, call in (("TryToWrite", "WriteUInt"), ("UncheckedWrite", "UncheckedWriteUInt")):
+            wm_ = method("EnumView", wname)
+            res.instances += 1
+            am = re.search(r"buffer_\s*\.\s*" + call + r"\s*\((.*)\)\s*;", " ".join(wm_.body.split()))
+            written = re.sub(r"\s+", "", am.group(1)) if am else None
+            if bounded is None or written is None:
+                raise AnalysisError(f"EnumView::{wname}: written value / bounded value not recognised")
+            if written != bounded:
+                res.add(f"{wm_.file}|EnumView::{wname}|written-vs-bounded", f"EnumView::{wname} writes `{written[:60]}` while CouldWriteValue bounds "
+                        f"`{bounded[:60]}`: a value accepted by the check can be written with bits above the field's width set "
+                        "(OffsetBitBlock::WriteUInt then CHECK-fails or overwrites neighbours)", wm_.file, wm_.line, f"EnumView::{wname}")
 
     if "mask" in parts:
         # ---- MaskToNBits -----------------------------------------------------------------------------------
